@@ -487,10 +487,13 @@ class DefTag(Tag):
     def undeclared_identifiers(self):
         res = []
         for c in self.function_decl.defaults:
+            # as for <%page args>, the variables of a comprehension in a
+            # default are its own
+            code = ast.PythonCode(c, **self.exception_kwargs)
             res += list(
-                ast.PythonCode(
-                    c, **self.exception_kwargs
-                ).undeclared_identifiers
+                code.undeclared_identifiers.difference(
+                    code.declared_identifiers
+                )
             )
         return (
             set(res)
